@@ -43,10 +43,10 @@ Proof.
   replace (lcp prev key - length prev)%nat with 0%nat by lia. cbn [firstn]. rewrite app_nil_r, lcp_firstn. apply firstn_skipn.
 Qed.
 
-(* with a non-empty previous key the assertion passes exactly for a strictly larger key;
+(* old shape: with a non-empty previous key the assertion passes exactly for a strictly larger key;
    with an empty previous_key it passes for EVERY key (the short-circuit behind F11) *)
-Lemma check_increasing_spec prev key : prev <> [] ->
-  (check_increasing prev key (lcp prev key) (length key - lcp prev key) = None <-> blt prev key = true).
+Lemma check_increasing_spec fkb prev key : prev <> [] ->
+  (check_increasing false fkb prev key (lcp prev key) (length key - lcp prev key) = None <-> blt prev key = true).
 Proof.
   intros Hne. unfold check_increasing, blt. pose proof (bcmp_view prev key) as Vw.
   pose proof (lcp_le_l prev key) as H1. pose proof (lcp_le_r prev key) as H2.
@@ -70,8 +70,48 @@ Proof.
       replace (nth c prev 0 <? nth c key 0) with false by (symmetry; apply N.ltb_ge; lia). discriminate.
 Qed.
 
-Lemma check_increasing_empty key keep add : check_increasing [] key keep add = None.
+Lemma check_increasing_empty fkb key keep add : check_increasing false fkb [] key keep add = None.
 Proof. unfold check_increasing. destruct (_ && _); reflexivity. Qed.
+
+(* fixed shape: inside a block the assertion passes exactly for a strictly larger key -- for EVERY
+   previous key, the empty one included -- and never indexes out of bounds; the first key of a block
+   is not compared here (it is compared with the previous block's last key by the index builder) *)
+Lemma check_increasing_fixed_spec prev key :
+  (check_increasing true false prev key (lcp prev key) (length key - lcp prev key) = None <-> blt prev key = true).
+Proof.
+  unfold check_increasing, blt. pose proof (bcmp_view prev key) as Vw.
+  pose proof (lcp_le_l prev key) as H1. pose proof (lcp_le_r prev key) as H2.
+  set (c := lcp prev key) in *.
+  destruct (bcmp prev key) eqn:E.
+  - subst key. unfold c. rewrite lcp_refl. replace (length prev - length prev)%nat with 0%nat by lia.
+    cbn [Nat.ltb Nat.leb andb]. rewrite Nat.ltb_irrefl. cbn [andb]. split; discriminate.
+  - split; [reflexivity|intros _]. destruct Vw as [[Ea Eb]|[[Ea Eb] Ec]].
+    + replace (Nat.ltb 0 (length key - c)) with true by (symmetry; apply Nat.ltb_lt; lia).
+      replace (Nat.eqb (length prev) c) with true by (symmetry; apply Nat.eqb_eq; lia). reflexivity.
+    + replace (Nat.eqb (length prev) c) with false by (symmetry; apply Nat.eqb_neq; lia). rewrite andb_false_r.
+      replace (Nat.ltb c (length prev)) with true by (symmetry; apply Nat.ltb_lt; lia).
+      replace (Nat.ltb c (length key)) with true by (symmetry; apply Nat.ltb_lt; lia).
+      replace (nth c prev 0 <? nth c key 0) with true by (symmetry; apply N.ltb_lt; exact Ec). reflexivity.
+  - split; [|discriminate]. destruct Vw as [[Ea Eb]|[[Ea Eb] Ec]].
+    + replace (length key - c)%nat with 0%nat by lia. cbn [Nat.ltb Nat.leb andb].
+      replace (Nat.ltb c (length key)) with false by (symmetry; apply Nat.ltb_ge; lia). rewrite andb_false_r. discriminate.
+    + replace (Nat.eqb (length prev) c) with false by (symmetry; apply Nat.eqb_neq; lia). rewrite andb_false_r.
+      replace (nth c prev 0 <? nth c key 0) with false by (symmetry; apply N.ltb_ge; lia). rewrite andb_false_r. discriminate.
+Qed.
+
+Lemma check_increasing_first fixed prev key keep add : (fixed = false -> prev = []) ->
+  check_increasing fixed true prev key keep add = None.
+Proof.
+  intros H. unfold check_increasing. destruct (_ && _); [reflexivity|]. destruct fixed; [reflexivity|]. now rewrite H.
+Qed.
+
+(* either shape: a key strictly above the previous key of the same block passes *)
+Lemma check_increasing_passes fixed prev key : blt prev key = true ->
+  check_increasing fixed false prev key (lcp prev key) (length key - lcp prev key) = None.
+Proof.
+  intros H. destruct fixed; [now apply check_increasing_fixed_spec|].
+  destruct prev as [|p0 prev'] eqn:E; [apply check_increasing_empty|]. apply check_increasing_spec; [discriminate|exact H].
+Qed.
 
 Lemma last_cons {A} (r : list A) : forall a p, last (a :: r) p = last r a.
 Proof.
@@ -100,9 +140,13 @@ Proof. unfold entries_bytes. rewrite map_app, concat_app. cbn [map concat]. now 
 
 Section Inv.
   Context {V : Type}.
+  Variable order_fixed : bool.
   Variable block_len : N.
   Notation rblock := (rblock V).
   Notation wstate := (wstate V).
+  Notation insert := (insert order_fixed block_len).
+  Notation insert_key := (insert_key order_fixed).
+  Notation run := (run order_fixed block_len).
 
   (* flushed blocks against the groups of pairs they hold, both most recent first; `nxt` = first key
      written after the most recent block (None: none yet), `end_ord` = ordinal after it *)
@@ -150,7 +194,7 @@ Section Inv.
   (* one accepted insert of a key above the last one keeps the invariant *)
   Lemma insert_preserves st D k v :
     winv st D -> (D = [] \/ blt (last_key D) k = true) ->
-    exists st', insert block_len st (k, v) = WOk st' /\ winv st' (D ++ [(k, v)]).
+    exists st', insert st (k, v) = WOk st' /\ winv st' (D ++ [(k, v)]).
   Proof.
     intros (rBs & C & HD & Hblk & Hvals & Hprev & Hnum & Hfo & Hrel) Hord.
     unfold insert. cbn [fst snd].
@@ -159,7 +203,7 @@ Section Inv.
       insert_key st k = WOk {| w_prev := k; w_done := done'; w_block := encode_block_keys (keys (C ++ [(k, v)]));
                                w_vals := w_vals st; w_num_terms := w_num_terms st; w_first_ord := w_first_ord st |} /\
       rdone_rel done' rBs (hd_error (keys (C ++ [(k, v)]))) (w_first_ord st)).
-    { unfold insert_key. destruct C as [|c C].
+    { unfold Writer.insert_key. destruct C as [|c C].
       - (* first key of a block: the previous block's separator is shortened *)
         rewrite app_nil_r in HD. subst D. rewrite Hnum, Hfo, N.eqb_refl.
         cbn [keys map last] in Hprev. cbn [app keys map hd_error fst].
@@ -175,7 +219,7 @@ Section Inv.
               destruct Hrel as (H1 & H2 & H3 & H4 & H5 & H6 & H7).
               destruct (find_shorter_between _ _ Hlt) as [Ha Hb]. repeat split; try assumption.
               apply ble_trans with (rb_sep rb); assumption. }
-        destruct Hsh as (done' & -> & Hrel'). rewrite Hprev. cbn [lcp]. rewrite check_increasing_empty.
+        destruct Hsh as (done' & -> & Hrel'). rewrite Hprev. cbn [lcp]. rewrite check_increasing_first by reflexivity.
         exists done'. split; [|rewrite <- Hfo; exact Hrel']. f_equal. rewrite Hblk.
         change (lcp [] k) with 0%nat. cbn [skipn]. unfold set_prev. cbn [firstn app].
         unfold encode_block_keys. cbn [keys map encode_entries lcp skipn entries_bytes concat app]. now rewrite app_nil_r.
@@ -186,8 +230,8 @@ Section Inv.
         assert (Hlk : last_key D = w_prev st) by (rewrite HD, Hprev; apply last_key_split; discriminate).
         destruct Hord as [Hnil|Hlt]; [exfalso; rewrite HD in Hnil; apply app_eq_nil in Hnil; destruct Hnil; discriminate|].
         rewrite Hlk in Hlt.
-        assert (Hchk : check_increasing (w_prev st) k (lcp (w_prev st) k) (length k - lcp (w_prev st) k) = None).
-        { destruct (w_prev st) eqn:Ep; [apply check_increasing_empty|]. apply check_increasing_spec; [discriminate|exact Hlt]. }
+        assert (Hchk : check_increasing order_fixed false (w_prev st) k (lcp (w_prev st) k) (length k - lcp (w_prev st) k) = None)
+          by (now apply check_increasing_passes).
         rewrite Hchk, set_prev_eq. exists (w_done st). split.
         + f_equal. f_equal. rewrite Hblk. unfold encode_block_keys, keys. rewrite map_app. cbn [map fst].
           rewrite encode_entries_snoc, entries_bytes_snoc. fold (keys C0). rewrite <- Hprev. reflexivity.
@@ -226,7 +270,7 @@ Section Inv.
 
   Lemma run_preserves kvs : forall st D,
     winv st D -> above_chain (match D with [] => None | _ => Some (last_key D) end) (keys kvs) ->
-    exists st', run block_len st kvs = WOk st' /\ winv st' (D ++ kvs).
+    exists st', run st kvs = WOk st' /\ winv st' (D ++ kvs).
   Proof.
     induction kvs as [|[k v] r IH]; intros st D Hinv Hch; cbn [run].
     - exists st. rewrite app_nil_r. auto.
@@ -247,7 +291,7 @@ Section Inv.
 
   (* building from strictly increasing keys never panics, and the final state describes them *)
   Theorem build_sorted_ok kvs : ssorted (keys kvs) = true ->
-    exists st, run block_len w_init kvs = WOk st /\ winv st kvs.
+    exists st, run w_init kvs = WOk st /\ winv st kvs.
   Proof.
     intros Hs. destruct (run_preserves kvs w_init [] winv_init) as (st & Hr & Hi); [now apply ssorted_above_chain|].
     exists st. auto.
@@ -257,7 +301,7 @@ Section Inv.
   (* Reachable writer states: after any ACCEPTED sequence of inserts (sorted or not). *)
   Inductive reachable : wstate -> option bytes -> Prop :=
   | reach_init : reachable w_init None
-  | reach_step st lk k v st' : reachable st lk -> insert block_len st (k, v) = WOk st' -> reachable st' (Some k).
+  | reach_step st lk k v st' : reachable st lk -> insert st (k, v) = WOk st' -> reachable st' (Some k).
 
   (* what the state remembers of the last accepted key *)
   Definition remembers (st : wstate) (lk : option bytes) : Prop :=
@@ -276,8 +320,8 @@ Section Inv.
     w_prev st1 = k /\ w_block st1 = w_block st ++ entry_bytes (lcp (w_prev st) k, skipn (lcp (w_prev st) k) k) /\
     w_num_terms st1 = w_num_terms st /\ w_first_ord st1 = w_first_ord st /\ w_vals st1 = w_vals st.
   Proof.
-    unfold insert_key. destruct (if N.eqb _ _ then _ else _); [|discriminate].
-    destruct (check_increasing _ _ _ _); [discriminate|]. intros E. injection E as <-.
+    unfold Writer.insert_key. destruct (if N.eqb _ _ then _ else _); [|discriminate].
+    destruct (check_increasing _ _ _ _ _ _); [discriminate|]. intros E. injection E as <-.
     cbn [w_prev w_block w_num_terms w_first_ord w_vals]. rewrite set_prev_eq. repeat split; reflexivity.
   Qed.
 
@@ -285,7 +329,7 @@ Section Inv.
   Proof.
     induction 1 as [|st lk k v st' Hr [IHr IHc] Hins].
     - split; [cbn; repeat split; reflexivity|]. cbn. unfold counts_ok. cbn. split; [lia|tauto].
-    - unfold insert in Hins. cbn [fst snd] in Hins. destruct (insert_key st k) as [st1|] eqn:Ek; [|discriminate].
+    - unfold Writer.insert in Hins. cbn [fst snd] in Hins. destruct (insert_key st k) as [st1|] eqn:Ek; [|discriminate].
       injection Hins as <-. destruct (insert_key_shape _ _ _ Ek) as (Hp & Hb & Hn & Hf & _).
       destruct IHc as [Hle Hiff].
       assert (Hbne : w_block st1 <> []).
